@@ -7,25 +7,32 @@ import sys
 
 ROOT = os.path.dirname(os.path.dirname(os.path.abspath(__file__)))
 ADD = {
-    "C01": "encoders restored from another encoder's state_dict; lengths 127…257 (repetition, SPC, RM m=7,8, Hamming μ=7,8) with linear word sets; zero-padded generic codes; quick also BCH over GF(32)/GF(64) and Hamming μ=5,6",
-    "C02": "generators with unused / repeated coordinates never thinned + a zero-padded family (all 2ⁿ words); Berlekamp–Massey on BCH codes of any dimension, GF(32)/GF(64) with δ≤11 in the quick tier",
-    "C03": "named standard codes advertise (n,k) in their name; `factories`: the code behind a name is the same before / after overriding calls and the other names",
-    "C04": "restored-from-state_dict encoders; the long and zero-padded catalogue entries; quick also GF(32)/GF(64) BCH",
-    "C06": "exact tie points and probes 1e-4 / 1e-5 dmin from every boundary; received points and noise-variance tensors compared with clones after every soft call",
-    "C07": "signals with exact zeros (on-off, burst, sparse); ONE channel object serving real / complex signals, 3 shapes and 3 powers in turn; the extreme answers of the generators (uniform 0, 2⁻²⁴, 1−2⁻²⁴, normal ±5.4σ) give finite noise",
-    "C08": "factories independent of each other; peak limits 0.01 … 37 (dyadic and not)",
-    "C09": "long BCH links (μ=5..8) and long RM links RM(0..1,6..8) with exactly t flips over BPSK; π/4-QPSK chains: 8 pairs × eval/train × 45 transmissions through the same modem objects; every soft link also at noise variance 50 and 1e-3; min-sum pairs with normalized / scaling+offset options",
-    "C10": "magnitudes 1e-30…1e20; normalized / scaling / offset option sets; circulant (3,6)- and (5,10)-regular graphs (cycles, n=12/24) at 10 / 60 / 200 [400] iterations",
-    "C11": "SC and BP on every user-supplied mask (N≤8); SC rule at N=256..1024 with dyadic magnitudes; mask overwritten by the caller after construction",
-    "C12": "module casts / eval / deepcopy keep the law; uint8 / int8 / int32 inputs",
-    "C13": "noise configured by power (4 powers × patterns × shapes × scales); supplied signal / csi tensors compared with clones; one input of 2²⁴+4099 samples",
-    "C14": "`table-stable`: fresh modulator and demodulator re-read after carrying data, returned symbols edited in place, index inputs; array Gray forms on 234 structured integers to 2⁶⁰",
-    "C15": "every option set of BP / min-sum consumers × 9 magnitudes; decisions and LLR arguments of a history held and re-read; whole batches (word + complement, all 2^L words) through every stateless consumer",
+    "C01": "mixing sequence of n=72 LDPC matrices agreeing on their first 64 columns; encoders restored from another encoder's state_dict; lengths 127…257 (repetition, SPC, RM m=7,8, Hamming μ=7,8) with linear word sets; zero-padded generic codes; quick also BCH over GF(32)/GF(64) and Hamming μ=5,6",
+    "C02": "spliced received words; brute-force ML on low-dimensional BCH codes of any length; generators with unused / repeated coordinates never thinned + a zero-padded family (all 2ⁿ words); Berlekamp–Massey on BCH codes of any dimension, GF(32)/GF(64) with δ≤11 in the quick tier",
+    "C03": "cyclic lengths 17 and 21 (min(k,n−k)≤9) in the quick tier; named standard codes advertise (n,k) in their name; `factories`: the code behind a name is the same before / after overriding calls and the other names",
+    "C04": "`many-blocks`: 5000 / 4500 / 4600 blocks in three layouts through 10 encoders; restored-from-state_dict encoders; the long and zero-padded catalogue entries; quick also GF(32)/GF(64) BCH",
+    "C05": "12 and 35 sequences in several batch dimensions ((3,4,L), (2,2,3,L), (5,7,L))",
+    "C06": "long hard-decision calls of exactly 3·2¹³ and 3·2¹² points; exact tie points and probes 1e-4 / 1e-5 dmin from every boundary; received points and noise-variance tensors compared with clones after every soft call",
+    "C07": "tail / head bursts at length N−37; signals with exact zeros (on-off, burst, sparse); ONE channel object serving real / complex signals, 3 shapes and 3 powers in turn; the extreme answers of the generators (uniform 0, 2⁻²⁴, 1−2⁻²⁴, normal ±5.4σ) give finite noise",
+    "C08": "chains of 4…24 stages grown by add_constraint; factories independent of each other; peak limits 0.01 … 37 (dyadic and not)",
+    "C09": "exhaustive ML decoder on 2¹³ / 2¹⁶ codewords; long BCH links (μ=5..8) and long RM links RM(0..1,6..8) with exactly t flips over BPSK; π/4-QPSK chains: 8 pairs × eval/train × 45 transmissions through the same modem objects; every soft link also at noise variance 50 and 1e-3; min-sum pairs with normalized / scaling+offset options",
+    "C10": "one call of 5003 rows with row-dependent magnitudes; magnitudes 1e-30…1e20; normalized / scaling / offset option sets; circulant (3,6)- and (5,10)-regular graphs (cycles, n=12/24) at 10 / 60 / 200 [400] iterations",
+    "C11": "frozen × interleave combinations at N=32…256 in the quick tier; SC and BP on every user-supplied mask (N≤8); SC rule at N=256..1024 with dyadic magnitudes; mask overwritten by the caller after construction",
+    "C12": "fewer draws than eligible symbols is a violation; module casts / eval / deepcopy keep the law; uint8 / int8 / int32 inputs",
+    "C13": "batch of 11; noise configured by power (4 powers × patterns × shapes × scales); supplied signal / csi tensors compared with clones; one input of 2²⁴+4099 samples",
+    "C14": "orders PAM 128…512, PSK 128 / 256; `table-stable`: fresh modulator and demodulator re-read after carrying data, returned symbols edited in place, index inputs; array Gray forms on 234 structured integers to 2⁶⁰",
+    "C15": "long frames of seeded random bits (5003 symbols BPSK / QPSK, 403 others); every option set of BP / min-sum consumers × 9 magnitudes; decisions and LLR arguments of a history held and re-read; whole batches (word + complement, all 2^L words) through every stateless consumer",
     "C16": "every pair of ≤4 bits in every layout incl. one complex symbol as 0-d / (1,) / (1,1): one-shot = exact = streaming",
-    "C17": "BranchingModel histories (add / remove / get / default / run) BFS depth 5 [7] against an ordered-dictionary model; state key = canonical state + set of operations applied; feedback round count independent of the data (transparent / zero / lossless-from-round-2 links)",
-    "C18": "field-level accessors (minimal-polynomial table, element list, zero / one, conversions, equality / hash); elements from two FiniteBifield(m) calls combine, m=1..16",
-    "C19": "compressing (sign-changing) and saturating nonlinear characteristics in 3 complex modes; fading with coherence time 5 / 100 (not dividing / exceeding the word); 0 dB among the SNR values",
-    "C20": "early-stopping polar BP members (both regimes) with noisy words that converge early / late / never; rows that are proper fractions of a block must be declined",
+    "C17": "BranchingModel histories (add / remove / get / default / default aliasing a branch model / run) BFS depth 5 [7] against an ordered-dictionary model; state key = canonical state + set of operations applied; feedback round count independent of the data (transparent / zero / lossless-from-round-2 links)",
+    "C18": "cross-field histories for all ordered pairs m1, m2 ≤ 8; field-level accessors (minimal-polynomial table, element list, zero / one, conversions, equality / hash); elements from two FiniteBifield(m) calls combine, m=1..16",
+    "C19": "300-element inputs; seam-free frozen-noise pass; compressing (sign-changing) and saturating nonlinear characteristics in 3 complex modes; fading with coherence time 5 / 100 (not dividing / exceeding the word); 0 dB among the SNR values",
+    "C20": "1400-symbol tie-carrying members for hard demodulation; early-stopping polar BP members (both regimes) with noisy words that converge early / late / never; rows that are proper fractions of a block must be declined",
+}
+DEV = {
+    "C09": "differential / offset modems excluded (the pipeline has no reference-symbol stage); π/4-QPSK included; BM fault clauses on 14 structured messages in quick; RM(·,6..8) links go beyond the m≤5 the property quantifies over",
+    "C15": "Otsu excluded; adaptive consumers only where the tensor as a whole is decidable (constant magnitude, both classes: single rows, or batches of words with their complements)",
+    "C02": "RS-style not paired with BM (open C03 finding); `errors-consistent` only inside a decoder's capability; brute-force ML beyond n=24 only for BCH codes with k≤8 [10]",
+    "C19": "widths (32,16) for the gradient-reach clause; PAPR finite differences with step 1e-7; 300-element inputs not in SNR mode (the library rounds the signal-dependent noise scale to float32)",
 }
 MARK = " **Since wave 8:** "
 TAIL = "; `lifecycle` case (§11 intro)"
@@ -66,6 +73,8 @@ def main():
             timing = re.sub(r"^[^\[]*", fmt(q[pid][0]) + " ", timing)
         elif pid in t:
             timing = re.sub(r"\[[^\]]*\]", "[" + fmt(t[pid][0]) + "]", timing)
+        if pid in DEV:
+            dev = DEV[pid]
         lines[i] = f"| {pid} | {eng} | {what} | {timing} | {dev} |"
     open(p, "w").write("\n".join(lines))
     tq, tt = sum(v[0] for v in q.values()), sum(v[0] for v in t.values())
